@@ -301,6 +301,7 @@ def mon_faults(sc):
 MONITORS = {
     "cli:c04": [mon_faults, mon_ids_fresh, mon_reply_matches, mon_return_once],
     "cli:c05": [mon_faults, mon_return_once, mon_ctx_outcome, mon_hooks, mon_reply_matches],
+    "cli:c10": [mon_faults, mon_return_once],
 }
 
 
@@ -311,6 +312,8 @@ def nontrivial(sc, fam):
         return ("\tcall\tR," in txt or "\tcall\tE," in txt or ",R," in txt) and "env\tfeed\tmsg" in txt
     if fam == "cli:c05":
         return ("env\tctxend" in txt or "o\tclose" in txt) and "o\tsendreq\t1" in txt
+    if fam == "cli:c10":
+        return "o\tsendreq\t" in txt
     return True
 
 
